@@ -25,7 +25,7 @@ IMPORTS = "From TF Require Import Base RandomPrims Adapt C11Check C07Check C15Ch
 
 def gen(ctx):
     import translate_code as TC
-    TC.ensure(TC.C07_FUNCS + ["randc01", "randn01", "randint", "uniform", "find_pbest_id"] + TC.C15_METHODS)
+    TC.ensure(TC.C07_FUNCS + ["randc01", "randn01", "randint", "uniform", "find_pbest_id", "sattolo_shuffle_2d"] + TC.C15_METHODS)
     import translate_loop as TL
     TL.emit(need=["TheFittest", "EvolutionaryAlgorithm", "DifferentialEvolution", "SHADE", "jDE", "SHAGA"])
 
